@@ -18,18 +18,26 @@ import (
 
 // Ctx bundles the loaded program, the report and memoised analyses.
 type Ctx struct {
-	P     *core.Prog
-	R     *report.Run
-	O     *core.Origins
-	Tier  string
-	reach map[*ssa.Function]*core.Reach
-	tplS  *tplState
+	P                   *core.Prog
+	R                   *report.Run
+	O                   *core.Origins
+	Tier                string
+	reach               map[*ssa.Function]*core.Reach
+	sums                map[sumKey]core.DNF
+	sumBad              map[sumKey]bool
+	sumBusy             map[*ssa.Function]bool
+	callers             map[*ssa.Function][]Site
+	valueUse            map[*ssa.Function]bool
+	tplS                *tplState
 	hookTally, asgTally *tally
 }
 
 // NewCtx creates a rule context.
 func NewCtx(p *core.Prog, r *report.Run, tier string) *Ctx {
-	return &Ctx{P: p, R: r, O: core.NewOrigins(), Tier: tier, reach: map[*ssa.Function]*core.Reach{}}
+	c := &Ctx{P: p, R: r, O: core.NewOrigins(), Tier: tier, reach: map[*ssa.Function]*core.Reach{},
+		sums: map[sumKey]core.DNF{}, sumBad: map[sumKey]bool{}, sumBusy: map[*ssa.Function]bool{}}
+	core.Expander = c.summaryOf
+	return c
 }
 
 // Reach returns (memoised) reaching conditions of fn.
@@ -255,7 +263,7 @@ func LitFields(a *ssa.Alloc) map[string]ssa.Value {
 // Canon canonicalises a literal: returns the origin term and whether it is asserted true.
 // "x != y" true is rewritten to "x == y" false; "!x" is unwrapped.
 func (c *Ctx) Canon(l core.Lit) (*core.Term, bool) {
-	t := c.O.Of(l.V)
+	t := l.TermOf(c.O)
 	pos := !l.Neg
 	for {
 		if t.Kind == "unop" && t.Name == "!" {
@@ -501,7 +509,7 @@ func (c *Ctx) Inline(t *core.Term, depth int) *core.Term {
 		}
 		if call.Kind == "call" && isModuleCallee(call.Name) {
 			if cv, ok := call.V.(*ssa.Call); ok {
-				if fn := cv.Call.StaticCallee(); fn != nil && fn.Blocks != nil && !strings.Contains(call.Name, "logger.") {
+				if fn := cv.Call.StaticCallee(); fn != nil && fn.Blocks != nil && (!strings.Contains(call.Name, "logger.") || fn.Parent() != nil) { // logger.Errorf & co. stay named; local closures are read through
 					rets := core.Returns(fn)
 					if len(rets) == 1 && len(fn.Blocks) <= 3 {
 						k := idx
@@ -517,6 +525,17 @@ func (c *Ctx) Inline(t *core.Term, depth int) *core.Term {
 							}
 							body := c.O.Of(rets[0].Results[k])
 							out := core.Subst(body, sub)
+							if mc, isMC := cv.Call.Value.(*ssa.MakeClosure); isMC {
+								fvs := map[string]*core.Term{}
+								for i, fv := range fn.FreeVars {
+									if i < len(mc.Bindings) {
+										if cvl := c.O.CellValue(mc.Bindings[i]); cvl != nil {
+											fvs[fv.Name()] = cvl
+										}
+									}
+								}
+								out = substFV(out, fvs)
+							}
 							res := c.Inline(out, depth-1)
 							seen[x] = res
 							return res
